@@ -389,15 +389,12 @@ func expandPathItem(pathItem *PathItem, resolver *schemaLoader, basePath string)
 	}
 
 	parentRefs := make([]string, 0, smallPrealloc)
-	if err := resolver.deref(pathItem, parentRefs, basePath); resolver.shouldStopOnError(err) {
+	derefResolver, derefBasePath, err := resolver.deref(pathItem, parentRefs, basePath)
+	if resolver.shouldStopOnError(err) {
 		return err
 	}
-
-	if pathItem.Ref.String() != "" {
-		transitiveResolver := resolver.transitiveResolver(basePath, pathItem.Ref)
-		basePath = transitiveResolver.updateBasePath(resolver, basePath)
-		resolver = transitiveResolver
-	}
+	// the resolver and base path of the document holding the dereferenced path item
+	resolver, basePath = derefResolver, derefBasePath
 
 	pathItem.Ref = Ref{}
 	for i := range pathItem.Parameters {
@@ -551,17 +548,14 @@ func expandParameterOrResponse(input interface{}, resolver *schemaLoader, basePa
 	parentRefs := make([]string, 0, smallPrealloc)
 	if ref != nil {
 		// dereference this $ref
-		if err = resolver.deref(input, parentRefs, basePath); resolver.shouldStopOnError(err) {
-			return err
+		derefResolver, derefBasePath, erd := resolver.deref(input, parentRefs, basePath)
+		if resolver.shouldStopOnError(erd) {
+			return erd
 		}
+		// the resolver and base path of the document holding the dereferenced parameter or response
+		resolver, basePath = derefResolver, derefBasePath
 
 		ref, sch, _ = getRefAndSchema(input)
-	}
-
-	if ref.String() != "" {
-		transitiveResolver := resolver.transitiveResolver(basePath, *ref)
-		basePath = resolver.updateBasePath(transitiveResolver, basePath)
-		resolver = transitiveResolver
 	}
 
 	if sch == nil {
